@@ -247,7 +247,10 @@ func c17Judge(texts []c17Text, stmts []*proto.Statement, resp []*proto.ExecuteQu
 				// HTTP layer does) is answered with rows by design: it was not treated as read-only.
 				// With several statements in such a text only the last one is stepped (a lost-write
 				// question for C13/C14, not a read that modifies): not judged.
-				if i < len(texts) && texts[i].Multi {
+				// That includes a mere comment after the terminating ';' ("INSERT … RETURNING id; -- c"):
+				// the driver's query loop then closes the INSERT unstepped and the write is silently lost
+				// (observed on the pinned tree; reported to the lead as a side finding, not a C17 matter).
+				if strings.Contains(stmts[i].Sql, ";") || (i < len(texts) && texts[i].Multi) {
 					labels = append(labels, "judged:skipped-forcequery-multi")
 					return true, "", "", labels
 				}
